@@ -24,6 +24,9 @@ pub struct Cone {
   /// and its immediate surroundings, for the class "rim_through_point"
   #[serde(default)]
   pub extra: Vec<(f64, f64)>,
+  /// deepest depth at which C05 also walks over all the cells of the sphere (default 6)
+  #[serde(default)]
+  pub exh_max: Option<u8>,
 }
 
 pub fn thresholds() -> &'static [f64; 30] {
@@ -123,6 +126,69 @@ fn rspec() -> BoxedStrategy<RSpec> {
 }
 
 pub fn cone() -> BoxedStrategy<Cone> {
+  prop_oneof![7 => cone_generic(), 1 => cone_small_at_polar_border()].boxed()
+}
+
+/// Directed class: a cone handled by the "cell of the centre + its 8 neighbours" branch (radius
+/// between two consecutive starting-depth limits, requested depth not deeper than the starting
+/// depth), centred in or next to a cell lying along the border between two base cells of a polar
+/// cap (or at the pole), where the cells are the most elongated and the bound on the
+/// centre-to-vertex distance the largest: the place where a neighbour is dropped first if that
+/// bound is evaluated for another position.
+fn cone_small_at_polar_border() -> BoxedStrategy<Cone> {
+  use crate::model::geom;
+  use crate::model::lattice::Cell;
+  let t = *thresholds();
+  (0u8..30, 0u8..4, any::<bool>(), any::<bool>(), 0.0f64..1.0, prop_oneof![3 => 0.0f64..1.0, 1 => Just(0.999999f64), 1 => Just(1e-6f64)], (0.0f64..1.5, 0.0f64..(2.0 * PI)), prop_oneof![6 => Just(0u8), 3 => 1u8..=2], 0u8..3)
+    .prop_flat_map(move |(ds, q, south, on_i, u, fr, (off, offaz), delta, less)| {
+      let n = 1i64 << ds;
+      let m = (n - 1) as u32;
+      // distance to the pole along the border, log-uniform in cells
+      let k = (((n as f64).powf(u) - 1.0) as i64).max(0).min(n - 1) as u32;
+      let cell = Cell { b: if south { 8 + q } else { q }, i: if on_i { m } else { m - k }, j: if on_i { m - k } else { m } };
+      let (cl, cb) = geom::cell_center_sphere(n, cell);
+      let hi = t[ds as usize];
+      let lo = if ds < 29 { t[ds as usize + 1] } else { 0.3 * hi };
+      let r = lo + (hi - lo) * fr;
+      let (lon, lat) = geom::point_at(cl, cb, off * r, offaz);
+      let delta = delta.min(ds);
+      let depth = (ds - delta).saturating_sub(less);
+      (prop::collection::vec(0.0f64..(2.0 * PI), 8..20), prop::collection::vec((0.0f64..1.0, 0.0f64..(2.0 * PI)), 8..24)).prop_map(move |(mut az, interior)| {
+        for k in 0..16 {
+          az.push(k as f64 * PI / 8.0);
+        }
+        Cone { depth, delta, lon: lon.rem_euclid(2.0 * PI), lat, radius: r, radius_class: "between_limits".to_string(), center_class: "polar_border_small_cone".to_string(), az, interior, extra: vec![], exh_max: None }
+      })
+    })
+    .boxed()
+}
+
+/// Directed class: cones handled by the "cell of the centre + its 8 neighbours" branch at the low
+/// depths (starting depth 0..=8, where neighbouring cells differ most in size and shape), requested
+/// depth = starting depth most of the time, centre anywhere with a bias towards the polar caps.
+pub fn cone_small_low_depth() -> BoxedStrategy<Cone> {
+  use crate::model::geom;
+  let t = *thresholds();
+  let lat = prop_oneof![
+    2 => (-1.0f64..1.0).prop_map(|z| z.asin()),
+    3 => (0.6f64..geom::HALF_PI, any::<bool>()).prop_map(|(b, s)| if s { -b } else { b }),
+  ];
+  (0u8..=8, 0.0f64..(2.0 * PI), lat, prop_oneof![4 => 0.0f64..1.0, 1 => Just(0.999999f64)], prop_oneof![3 => Just(0u8), 1 => 1u8..=2], prop_oneof![4 => Just(0u8), 1 => 1u8..=2], prop::collection::vec(0.0f64..(2.0 * PI), 8..20), prop::collection::vec((0.8f64..1.0, 0.0f64..(2.0 * PI)), 4..8))
+    .prop_map(move |(ds, lon, lat, fr, delta, less, mut az, interior)| {
+      let hi = t[ds as usize];
+      let lo = t[ds as usize + 1];
+      let r = lo + (hi - lo) * fr;
+      let delta = delta.min(ds);
+      let depth = (ds - delta).saturating_sub(less);
+      for k in 0..48 {
+        az.push(k as f64 * PI / 24.0);
+      }
+      Cone { depth, delta, lon, lat, radius: r, radius_class: "between_limits".to_string(), center_class: "low_depth_small_cone".to_string(), az, interior, extra: vec![], exh_max: Some(3) }
+    })
+    .boxed()
+}
+
+fn cone_generic() -> BoxedStrategy<Cone> {
   (rspec(), gens::position_principal(), prop_oneof![6 => Just(48.0f64), 1 => Just(200.0f64)])
     .prop_flat_map(|(rs, pos, budget)| {
       let (r, rc, extra) = match rs {
@@ -151,7 +217,7 @@ pub fn cone() -> BoxedStrategy<Cone> {
         for k in 0..16 {
           az.push(k as f64 * PI / 8.0);
         }
-        Cone { depth, delta, lon: pos.lon, lat: pos.lat, radius: r, radius_class: rc.clone(), center_class: pos.class.clone(), az, interior, extra: extra.clone() }
+        Cone { depth, delta, lon: pos.lon, lat: pos.lat, radius: r, radius_class: rc.clone(), center_class: pos.class.clone(), az, interior, extra: extra.clone(), exh_max: None }
       })
     })
     .boxed()
